@@ -135,6 +135,23 @@ let respond (line : String.t) : String.t =
        (* hypotheses of the completeness theorem C09_complete at (s, a) with b = apply s a literally *)
        let hyp = cwf s a && term_eqb r b in
        String.concat "\t" [ bool_s exact; bool_s equiv; bool_s bound; bool_s (has_comm_binary a); bool_s hyp ])
+  | [ "complete"; a; b; theta; res ] ->
+    (* hypotheses of C09_complete at (theta, a) with b = apply theta a literally; and, for an
+       answer of the implementation, its conclusion: every entry is theta's value *)
+    (match subs_of_term (parse_term theta) with
+     | None -> "nosubs"
+     | Some th ->
+       let a = parse_term a and b = parse_term b in
+       let hyp = cwf th a && term_eqb (apply th a) b in
+       let value_eq v w = match v, w with
+         | VType x, VType y | VExpr x, VExpr y -> term_eqb x y
+         | VIdentity, VIdentity -> true
+         | _ -> false in
+       let concl = match subs_of_term (parse_term res) with
+         | None -> false
+         | Some s ->
+           List.for_all (fun (p, v) -> value_eq v (value_of th p) && List.mem p (params a)) s in
+       bool_s hyp ^ "\t" ^ bool_s concl)
   | [ "apply"; s; a ] ->
     (match subs_of_term (parse_term s) with
      | None -> "nosubs"
